@@ -58,6 +58,13 @@ REPROS = [
      "setup": T3 + ["insert into t2 values (1,2,'a'),(NULL,NULL,'')"],
      "sql": "select (2 + 1) as c1, max(x1.b) as c3 from t2 as x1 group by (2 + 1) limit 3",
      "configs": ["mem.on"]},
+    {"id": "Q13", "properties": ["C02"],
+     "summary": "count(*) of an outer query over a derived table that itself computes count(*): both are the same "
+                "argument-free expression node, the outer count(*) returns the inner one's value when the inner "
+                "count column is used outside",
+     "setup": T3 + ["insert into t3 values (2,1),(2,3),(1,1)"],
+     "sql": "select d1, d2, count(*) from (select a as d1, count(*) as d2 from t3 group by a) as x group by d1, d2",
+     "configs": ["mem.on", "mem.off"]},
     {"id": "Q12", "properties": ["C02"],
      "summary": "a CTE referenced more than once is bound once and every reference shares the same column "
                 "identities: in `with d as (..) select .. from d as x join d as y on x.a = y.a` the condition "
